@@ -202,7 +202,11 @@ class Program:
                     raise AnalysisError(f"cannot parse {rel}: {e}") from e
                 pending.append((modname, path, rel, src, tree))
         from .canon import property_names
+        from .inline import expand_new_helpers, load_baseline
 
+        self.helpers_expanded = 0
+        if os.environ.get("VSTATIC_NO_INLINE") != "1":
+            self.helpers_expanded = expand_new_helpers({m: t for m, _p, _r, _s, t in pending}, load_baseline())
         self.property_names = property_names([t for *_x, t in pending])
         for modname, path, rel, src, tree in pending:
             self.modules[modname] = ModuleInfo(modname, path, src, tree=tree, props=self.property_names)
